@@ -542,7 +542,11 @@ def evaluate_sizes(nodes, warn=null_warn):
     """
 
     def evaluate_node_size(node_, parent, member):
+        visited = []
         while isinstance(node_, Typedef) and node_.definition:
+            if any(node_ is seen for seen in visited):
+                raise ModelError("Typedef '%s' is defined through itself." % node_.name)
+            visited.append(node_)
             node_ = node_.definition
         if isinstance(node_, (Struct, Union)):
             return node_.byte_size, node_.alignment
